@@ -4,7 +4,7 @@ from __future__ import annotations
 import ast
 
 from ..cfg import NORMAL, ALL, walk_local
-from ..facts import (cfg_of, call_name, calls_in, targets_of, guard_atoms,
+from ..facts import (runs_only_when, cfg_of, call_name, calls_in, targets_of, guard_atoms,
                      is_attr, is_name, enclosing, local_assigns, kwarg,
                      const_value, strip_await, bind_args, names_in)
 from ..loader import txt, AnchorError
@@ -239,10 +239,8 @@ def r163(ctx) -> None:
                                for c in n.calls()))
     okbad = False
     for b in bad_ret:
-        for t in cfg.nodes:
-            if t.kind == 'test' and guard_atoms(t.stmt.test) == \
-                    [('ok', False)] and cfg.controlled_by(b, t, 't'):
-                okbad = True
+        if runs_only_when(cfg, b, 'ok', False):
+            okbad = True
     R.check(okbad, idle, idle.node, 'idle: anything but DONE is answered '
             'BAD', 'no `return ResponseBad` under `not ok`')
     # handle_updates loops on the stop event and forwards it
